@@ -68,6 +68,9 @@ def schedule_case(draw):
         hist.append(dict(base, lam=0.5 if base["lam"] != 0.5 else 0.01, lam_form="scalar", beta=base["beta"] + 1.0))
     if kind in ("same_shape_other_data", "both"):
         hist.append(dict(base, data_seed=(base["data_seed"] + 1) % (2 ** 31), sensor_scales=[3.0] * base["N"]))
+    cfg["prior_run_override"] = None        # histories are this check's own, explicit dimension
+    for h in hist:
+        h["prior_run_override"] = None
     cfg["variants"] = variants
     cfg["history"] = hist
     cfg["check_hashseed"] = True
